@@ -71,6 +71,9 @@ type Out struct {
 
 const markPrefix = "refs/m/"
 
+// no program of the generated runs needs more than a few hundred filesystem calls
+const stepCap = 1500
+
 func hashSize(h string) int {
 	if h == "s256" {
 		return 32
@@ -468,7 +471,7 @@ func (r *runner) exec() (out Out) {
 			}
 		}
 		step(h, exp)
-		if out.Steps > 5000 {
+		if out.Steps > stepCap {
 			break
 		}
 	}
@@ -483,7 +486,7 @@ func (r *runner) exec() (out Out) {
 		changePts[1+rng.Intn(60)] = true
 	}
 	rr := 0
-	for out.Steps < 5000 {
+	for out.Steps < stepCap {
 		rs := c.Runnable()
 		if len(rs) == 0 {
 			break
@@ -509,6 +512,13 @@ func (r *runner) exec() (out Out) {
 			rr++
 		}
 		step(h, nil)
+	}
+
+	// a handle that is still runnable after stepCap filesystem calls does not terminate (e.g. a reload that
+	// retries for ever): every call of a finite program returns, because the other handles' calls are finite
+	for _, h := range c.Runnable() {
+		c.Log(sched.Event{"ev": "stuck", "h": h})
+		c.Crash(h)
 	}
 
 	// final observation by a fresh handle (sequential, handle 0)
